@@ -249,8 +249,10 @@ func VerifC10_V1RoundTrip() {
 		vnd.Assert(out.FeeRecipient == in.FeeRecipient && out.GasLimit == in.GasLimit && (out.Builder == nil) == (in.Builder == nil), "C10.v1roundtrip.proposer-entry-same-meaning")
 	case 2:
 		in := &ExecutionConfig{DefaultConfig: &ProposerConfig{FeeRecipient: fee}, ProposerConfigs: map[phase0.BLSPubKey]*ProposerConfig{}}
+		// the key's text form begins with a letter, with one zero digit or with a zero byte
+		key := phase0.BLSPubKey{[]byte{0xaa, 0x0a, 0x00}[vnd.Choose("key.first-byte", 3)], 0xbb}
 		if vnd.Bool("specific.present") {
-			in.ProposerConfigs[phase0.BLSPubKey{0xaa, 0xbb}] = &ProposerConfig{FeeRecipient: fee, GasLimit: 5}
+			in.ProposerConfigs[key] = &ProposerConfig{FeeRecipient: fee, GasLimit: 5}
 		}
 		doc, err := in.MarshalJSON()
 		vnd.Assert(err == nil, "C10.v1roundtrip.marshal")
@@ -262,8 +264,8 @@ func VerifC10_V1RoundTrip() {
 		}
 		vnd.Assert(sameEntry(out.DefaultConfig, in.DefaultConfig) && len(out.ProposerConfigs) == len(in.ProposerConfigs), "C10.v1roundtrip.configuration-same-meaning")
 		if len(in.ProposerConfigs) == 1 {
-			got, present := out.ProposerConfigs[phase0.BLSPubKey{0xaa, 0xbb}]
-			vnd.Assert(present && got != nil && sameEntry(got, in.ProposerConfigs[phase0.BLSPubKey{0xaa, 0xbb}]), "C10.v1roundtrip.per-validator-entry-keeps-its-key")
+			got, present := out.ProposerConfigs[key]
+			vnd.Assert(present && got != nil && sameEntry(got, in.ProposerConfigs[key]), "C10.v1roundtrip.per-validator-entry-keeps-its-key")
 		}
 	}
 	vnd.Cover("C10.v1roundtrip.checked")
